@@ -150,6 +150,10 @@ func genDoc(r *rand.Rand) Doc {
 		p.Vars = append(p.Vars, d)
 	}
 	pr := p.Print()
+	if r.IntN(10) == 0 {
+		// Windows line endings: lines and columns of every token are unchanged
+		pr.Text = strings.ReplaceAll(pr.Text, "\n", "\r\n")
+	}
 	return Doc{Text: pr.Text, Spans: pr.Spans, Valid: true}
 }
 
